@@ -1,8 +1,9 @@
 import FloVerif.Gen.Contour
 /-!
 Hand-written model of the sampled-contour tracing pipeline (src/bezier/vectorize):
-`BoolSampledContour::intercepts_on_line` (run-length encoding), `rounded_intercepts_on_line` /
-`merge_overlapping_intercepts`, the `InterceptScanEdgeIterator` state machine and
+`BoolSampledContour::intercepts_on_line` / `U8SampledContour::intercepts_on_line` (run-length encoding),
+`SampledContour::rounded_intercepts_on_line` (`roundFrac`: ceiling of fractional intercepts, `as usize`, dropping of
+empty ranges) / `merge_overlapping_intercepts` (`mergeRuns`), the `InterceptScanEdgeIterator` state machine and
 `trace_contours_from_edges` (association list in place of the `HashMap`).
 The cell table, the corner-bit packing and the edge numbering are the generated `Gen.cell_connected_edges`,
 `Gen.cell_from_corners`, `Gen.edge_at_coordinates`.
@@ -23,6 +24,15 @@ def rowRunsGo : Nat → Option Nat → List Bool → List Run
 
 def rowRuns (row : List Bool) : List Run := rowRunsGo 0 none row
 
+/-- the rows that `BoolSampledContour::intercepts_on_line` reads out of the flat sample vector: sample (x, y) is
+    `self.1[idx]` with `idx` as computed by `point_is_inside` (generated: `Gen.bool_point_index`) -/
+def boolRows (w h : Nat) (v : List Bool) : List (List Bool) :=
+  (List.range h).map fun y => (List.range w).map fun x => v.getD (bool_point_index w h x y) false
+
+/-- the same for `U8SampledContour`: `self.1[idx] != 0` with the generated `Gen.u8_point_index` -/
+def u8Rows (w h : Nat) (v : List Nat) : List (List Bool) :=
+  (List.range h).map fun y => (List.range w).map fun x => v.getD (u8_point_index w h x y) 0 != 0
+
 /-- `merge_overlapping_intercepts` -/
 def mergeRuns : List Run → List Run
   | a :: b :: rest => if a.2 ≥ b.1 then mergeRuns ((a.1, b.2) :: rest) else a :: mergeRuns (b :: rest)
@@ -33,6 +43,32 @@ termination_by l => l.length
 def roundedRuns (row : List Bool) : List Run :=
   let rs := (rowRuns row).filter (fun r => r.1 != r.2)
   if rs.length ≤ 1 then rs else mergeRuns rs
+
+/-- a fractional intercept `start..end` of a scanline (`Range<f64>`; every finite binary64 number is a rational) -/
+abbrev FRange := Rat × Rat
+
+/-- `x.ceil() as usize` for a finite `x`: Rust's float-to-integer `as` saturates, so a negative ceiling becomes 0
+    (`Int.toNat`).  The saturation at `usize::MAX` is not modelled: intercepts are assumed to be below 2^64. -/
+def ceilUsize (q : Rat) : Nat := q.ceil.toNat
+
+/-- the first half of `rounded_intercepts_on_line`: `.map(|i| i.start.ceil() as usize .. i.end.ceil() as usize)
+    .filter(|i| i.start != i.end)` -/
+def ceilRuns (l : List FRange) : List Run :=
+  (l.map fun r => (ceilUsize r.1, ceilUsize r.2)).filter (fun r => r.1 != r.2)
+
+/-- `SampledContour::rounded_intercepts_on_line` (the default method every contour type uses) applied to the ranges
+    that `intercepts_on_line` returned: ceilings, empty ranges dropped, then `merge_overlapping_intercepts` when more
+    than one range is left -/
+def roundFrac (l : List FRange) : List Run :=
+  let rs := ceilRuns l
+  if rs.length ≤ 1 then rs else mergeRuns rs
+
+/-- the meaning of a list of intercepts (`contour_point_is_inside`): sample `x` is inside iff `start ≤ x < end` for
+    one of the ranges -/
+def covers (l : List FRange) (x : Nat) : Bool := l.any fun r => decide (r.1 ≤ (x : Rat)) && decide ((x : Rat) < r.2)
+
+/-- the row of `w` samples that a list of intercepts stands for -/
+def sampleRow (w : Nat) (l : List FRange) : List Bool := (List.range w).map (covers l)
 
 /-- state of `InterceptScanEdgeIterator` -/
 structure It where
@@ -105,10 +141,19 @@ def cellsGo (fuel : Nat) : Nat → It → List ((Nat × Nat) × Nat)
     | none => []
     | some (c, it') => c :: cellsGo fuel n it'
 
+/-- `edge_cell_iterator().collect()` for a contour of width `w` whose lines have the rounded intercepts `lines`
+    (what `ContourInterceptsIterator` hands to the scan) -/
+def edgeCellsOfRuns (w : Nat) (lines : List (List Run)) : List ((Nat × Nat) × Nat) :=
+  let fuel := 4 * (w + 4) * (lines.length + 4)
+  cellsGo fuel ((w + 2) * (lines.length + 2)) (fromIterator lines)
+
 /-- the edge cells of a bitmap given as rows -/
 def edgeCells (w : Nat) (rows : List (List Bool)) : List ((Nat × Nat) × Nat) :=
-  let fuel := 4 * (w + 4) * (rows.length + 4)
-  cellsGo fuel ((w + 2) * (rows.length + 2)) (fromIterator (rows.map roundedRuns))
+  edgeCellsOfRuns w (rows.map roundedRuns)
+
+/-- the edge cells of a contour given by the fractional intercepts of its lines -/
+def edgeCellsFrac (w : Nat) (lines : List (List FRange)) : List ((Nat × Nat) × Nat) :=
+  edgeCellsOfRuns w (lines.map roundFrac)
 
 /-! tracing -/
 
@@ -168,6 +213,11 @@ def traceLoops : Nat → Graph → Option (List (List Nat))
 
 def traceContours (w : Nat) (rows : List (List Bool)) : Option (List (List Nat)) :=
   let g := buildGraph w (edgeCells w rows)
+  traceLoops (g.length + 1) g
+
+/-- `trace_contours_from_samples` for a contour given by the fractional intercepts of its lines -/
+def traceContoursFrac (w : Nat) (lines : List (List FRange)) : Option (List (List Nat)) :=
+  let g := buildGraph w (edgeCellsFrac w lines)
   traceLoops (g.length + 1) g
 
 /-! specification side: what the scan and the trace must produce, straight from the bitmap -/
